@@ -60,6 +60,8 @@ func shortStack() string {
 type T struct {
 	c   *eng.Ctx
 	tag string // parameter-set tag, goes into distinct keys and details (never into signatures)
+	// outs: output objects exposed by the row that is being built / run (indep.go)
+	outs []any
 }
 
 func (t *T) distinct(api, pattern, kind, variant string, nontrivial bool) {
